@@ -345,6 +345,11 @@ class SupvisorsStateModes:
         """ The event is fired on change by the remote Supvisors instance. """
         # ignore if sent by the local Supvisors instance because information may be lost in the gap
         if identifier != self.local_identifier:
+            # NOTE: the states and modes of a Supvisors instance are reset when it is lost
+            #       a late event must not restore them before the next handshake
+            if self.local_state_modes.instance_states[identifier] in [SupvisorsInstanceStates.STOPPED,
+                                                                      SupvisorsInstanceStates.ISOLATED]:
+                return
             self.instance_state_modes[identifier].update(event)
             # export the Supvisors status because starting / stopping identifiers may have changed
             self.export_status()
